@@ -22,7 +22,7 @@ VARIABLES
   bif,         \* ledger of bytes in flight
   ptoCount, minLatest, maxLatest, paths,
   closing,     \* a CONNECTION_CLOSE was sent: close packets are not tracked by loss recovery, bookkeeping ends
-  prevRtt,     \* max(srtt, latest) of the previous metrics event
+  prevRtt,     \* function path id -> max(srtt, latest) of that path's previous metrics event
   preDiscard   \* None, or the ledger value before a space discard: the metrics event of the discard is published BEFORE the
                \* discarded bytes are subtracted (recovery/manager.rs on_packet_number_space_discarded) - an event-order
                \* quirk, named here, not a bookkeeping error
@@ -30,7 +30,7 @@ rvars == <<sent, resolvedMax, lastCc, largestAcked, pendingLoss, bif, ptoCount, 
 
 RFresh == [ sent |-> [s \in Sp |-> <<>>], resolvedMax |-> [s \in Sp |-> None], lastCc |-> [s \in Sp |-> <<>>],
             largestAcked |-> [s \in Sp |-> None], pendingLoss |-> <<>>, bif |-> 0, ptoCount |-> 0,
-            minLatest |-> None, maxLatest |-> None, paths |-> 1, preDiscard |-> None, closing |-> FALSE, prevRtt |-> None ]
+            minLatest |-> None, maxLatest |-> None, paths |-> 1, preDiscard |-> None, closing |-> FALSE, prevRtt |-> <<>> ]
 RInit == sent = RFresh.sent /\ resolvedMax = RFresh.resolvedMax /\ lastCc = RFresh.lastCc /\ largestAcked = RFresh.largestAcked
          /\ pendingLoss = RFresh.pendingLoss /\ bif = RFresh.bif /\ ptoCount = RFresh.ptoCount /\ minLatest = RFresh.minLatest
          /\ maxLatest = RFresh.maxLatest /\ paths = RFresh.paths /\ preDiscard = RFresh.preDiscard /\ closing = RFresh.closing /\ prevRtt = RFresh.prevRtt
@@ -57,43 +57,62 @@ AckRange(sp, lo, hi) ==
   /\ bif' = bif - SumSizes(sent[sp], K)
   /\ largestAcked' = [largestAcked EXCEPT ![sp] = IF hi <= resolvedMax[sp] THEN Max2(@, hi) ELSE @]
   /\ UNCHANGED <<resolvedMax, lastCc, pendingLoss, ptoCount, minLatest, maxLatest, paths, preDiscard, closing, prevRtt>>
-PacketLost(sp, pn, t) ==
+PacketLost(sp, pn, t, path) ==
   /\ pn \in DOMAIN sent[sp]                         \* sent, and not resolved before (exactly once)
   /\ largestAcked[sp] > pn                          \* a later packet was acknowledged (a PTO alone marks nothing lost)
-  /\ pendingLoss' = Append(pendingLoss, [sp |-> sp, pn |-> pn, tsent |-> sent[sp][pn].t, t |-> t, la |-> largestAcked[sp]])
+  /\ pendingLoss' = Append(pendingLoss, [sp |-> sp, pn |-> pn, tsent |-> sent[sp][pn].t, t |-> t, la |-> largestAcked[sp], path |-> path])
   /\ sent' = [sent EXCEPT ![sp] = Del(@, {pn})]
   /\ bif' = bif - (IF sent[sp][pn].cc THEN sent[sp][pn].size ELSE 0)
   /\ UNCHANGED <<resolvedMax, lastCc, largestAcked, ptoCount, minLatest, maxLatest, paths, preDiscard, closing, prevRtt>>
-\* the RTT used by the code at the moment of the declaration is not published; it lies between the values of the metrics
-\* events before and after the declaration, so the smaller of the two thresholds is demanded
-LossJustified(x, srtt, latest) ==
+\* the RTT used by the code at the moment of the declaration is not published; it is the estimate of the path the packet
+\* was SENT on and lies between the values of that path's metrics events before and after the declaration, so the smaller
+\* of the two thresholds is demanded (prev / next = None: no such event)
+LossJustified(x, prev, next) ==
   \/ x.la - x.pn >= 3
-  \/ LET r == IF prevRtt = None THEN Max2(srtt, latest) ELSE Min2(prevRtt, Max2(srtt, latest))
+  \/ prev = None /\ next = None
+  \/ LET r == IF prev = None THEN next ELSE IF next = None THEN prev ELSE Min2(prev, next)
          thr == Max2((9 * r) \div 8, Granularity) IN
      \* named tolerance: Timestamp::has_elapsed treats a deadline less than the timer granularity (1 ms) ahead as
      \* elapsed, so a loss may be declared up to kGranularity before the threshold
      (x.t - x.tsent) + Granularity >= thr
-\* metrics of a path other than the first one: the connection is multi-path from now on (per-path state is not modelled)
-MetricsOtherPath == paths' = Max2(paths, 2) /\ pendingLoss' = <<>> /\ preDiscard' = None
-  /\ UNCHANGED <<sent, resolvedMax, lastCc, largestAcked, bif, ptoCount, minLatest, maxLatest, closing, prevRtt>>
-Metrics(srtt, latest, minrtt, bytesInFlight, pto) ==
-  /\ (\A i \in 1..Len(pendingLoss) : LossJustified(pendingLoss[i], srtt, latest)) = TRUE
-  /\ paths > 1 \/ closing \/ bytesInFlight = (IF preDiscard # None THEN preDiscard ELSE bif)     \* exact ledger (single path)
-  /\ preDiscard' = None
-  /\ paths > 1 \/ pto \in {ptoCount, ptoCount + 1, 0}
+PrevOf(path) == IF path \in DOMAIN prevRtt THEN prevRtt[path] ELSE None
+\* recovery metrics of one path.  Losses of packets sent on this path are judged now; those of other paths wait for
+\* their own path's next metrics event (or the end of the run).  The ledger, PTO-count and sample-range rules are
+\* stated for single-path connections (per-path in-flight attribution is not published by the implementation).
+Metrics(path, srtt, latest, minrtt, bytesInFlight, pto) ==
+  /\ (\A i \in 1..Len(pendingLoss) : pendingLoss[i].path = path => LossJustified(pendingLoss[i], PrevOf(path), Max2(srtt, latest))) = TRUE
+  /\ pendingLoss' = SelectSeq(pendingLoss, LAMBDA x : x.path # path)
+  /\ prevRtt' = Put(prevRtt, path, Max2(srtt, latest))
   /\ minrtt <= latest + 1 /\ minrtt <= srtt + 1
-  /\ LET mn == IF minLatest = None THEN latest ELSE Min2(minLatest, latest)
-         mx == IF maxLatest = None THEN latest ELSE Max2(maxLatest, latest) IN
-     /\ paths > 1 \/ srtt <= mx + 1
-     /\ minLatest' = mn /\ maxLatest' = mx
-  /\ pendingLoss' = <<>> /\ ptoCount' = pto
-  /\ prevRtt' = Max2(srtt, latest)
-  /\ UNCHANGED <<sent, resolvedMax, lastCc, largestAcked, bif, paths, closing>>
+  /\ IF path = 0 THEN
+       /\ paths > 1 \/ closing \/ bytesInFlight = (IF preDiscard # None THEN preDiscard ELSE bif)     \* exact ledger (single path)
+       /\ preDiscard' = None
+       /\ paths > 1 \/ pto \in {ptoCount, ptoCount + 1, 0}
+       /\ LET mn == IF minLatest = None THEN latest ELSE Min2(minLatest, latest)
+              mx == IF maxLatest = None THEN latest ELSE Max2(maxLatest, latest) IN
+          /\ paths > 1 \/ srtt <= mx + 1
+          /\ minLatest' = mn /\ maxLatest' = mx
+       /\ ptoCount' = pto /\ paths' = paths
+     ELSE
+       /\ paths' = Max2(paths, 2) /\ preDiscard' = None
+       /\ UNCHANGED <<ptoCount, minLatest, maxLatest>>
+  /\ UNCHANGED <<sent, resolvedMax, lastCc, largestAcked, bif, closing>>
+\* end of the run: what is still waiting is judged with the last estimate published for its path
+EndOfRun ==
+  /\ (\A i \in 1..Len(pendingLoss) : LossJustified(pendingLoss[i], PrevOf(pendingLoss[i].path), None)) = TRUE
+  /\ pendingLoss' = <<>>
+  /\ UNCHANGED <<sent, resolvedMax, lastCc, largestAcked, bif, ptoCount, minLatest, maxLatest, paths, preDiscard, closing, prevRtt>>
 SpaceDiscarded(sp) ==
   /\ bif' = bif - SumSizes(sent[sp], DOMAIN sent[sp])
   /\ sent' = [sent EXCEPT ![sp] = <<>>]
   /\ preDiscard' = (IF preDiscard # None THEN preDiscard ELSE bif)
   /\ UNCHANGED <<resolvedMax, lastCc, largestAcked, pendingLoss, ptoCount, minLatest, maxLatest, paths, closing, prevRtt>>
+\* RFC 9002 6.4 / RFC 9000 17.2.5.2: a client that accepts a Retry forgets every Initial packet sent so far; their bytes leave
+\* the bytes-in-flight figure at once (they can never be acknowledged or declared lost afterwards)
+RetryAccepted ==
+  /\ bif' = bif - SumSizes(sent["i"], DOMAIN sent["i"])
+  /\ sent' = [sent EXCEPT !["i"] = <<>>]
+  /\ UNCHANGED <<resolvedMax, lastCc, largestAcked, pendingLoss, ptoCount, minLatest, maxLatest, paths, closing, prevRtt, preDiscard>>
 MorePaths == paths' = paths + 1 /\ UNCHANGED <<sent, resolvedMax, lastCc, largestAcked, pendingLoss, bif, ptoCount, minLatest, maxLatest, preDiscard, closing, prevRtt>>
 CloseSent == closing' = TRUE /\ UNCHANGED <<sent, resolvedMax, lastCc, largestAcked, pendingLoss, bif, ptoCount, minLatest, maxLatest, paths, preDiscard, prevRtt>>
 BifNonNegative == bif >= 0
